@@ -6,10 +6,11 @@
    removed from either side, re-created; object 1 garbage-collected at any point; in between ANY
    history of assignments and list mutations on all eight traits, any values, any lists).
    List mutators: any set [allowed] whose events replay (C05's law, [replay_ok]); proved for all
-   mutators except slice keys (simple_mutators_replay).  Link graphs with several partners are
-   covered by the correspondence only; cyclic_links_diverge shows why no general theorem holds. *)
+   mutators except slice keys (simple_mutators_replay).  Termination is proved for arbitrary pools
+   (propagation_depth_bounded); convergence for link graphs with several partners is covered by the
+   correspondence only - cyclic_links_diverge shows why no general convergence theorem holds. *)
 From Coq Require Import ZArith List Bool Arith.
-From TV Require Import Common.Harness C20.ListSem C20.ListProofs C20.Model C20.Law C20.Steps C20.Proofs.
+From TV Require Import Common.Harness C20.ListSem C20.ListProofs C20.Model C20.Law C20.Steps C20.Proofs C20.Termination.
 Import ListNotations.
 Open Scope Z_scope.
 
@@ -61,6 +62,21 @@ Theorem propagation_depth_le_2 :
     Forall (fun p => ob_out (snd p) <> Raised RecursionError) (run (S (S F)) (st_of md va vb nts) h).
 Proof. exact protocol_no_overflow. Qed.
 Print Assumptions propagation_depth_le_2.
+
+(* ... and for ARBITRARY pools, tables, link graphs and values: a call of setattr / of the item-event
+   propagation on a trait that is not locked never exceeds recursion depth Phi + 1, where Phi <= the
+   number of attached sync handlers, and returns with tables, handlers and LOCKS exactly as it found
+   them (the lock invariant) *)
+Theorem propagation_depth_bounded :
+  (forall f st o n v, overflow st = false -> lockedb st o n = false -> (Phi st < f)%nat ->
+     overflow (fst (assign f st o n v)) = false /\ same_frame st (fst (assign f st o n v))) /\
+  (forall f st o n ev, overflow st = false -> lockedb st o n = false -> (Phi st < f)%nat ->
+     overflow (forward f st o n ev) = false /\ same_frame st (forward f st o n ev)) /\
+  (forall st, (Phi st <= list_sum (map (fun ob => length (o_att_s ob ++ o_att_i ob)) (objs st)))%nat).
+Proof.
+  split; [exact assign_terminates|]. split; [exact forward_terminates|exact Phi_le_attached].
+Qed.
+Print Assumptions propagation_depth_bounded.
 
 Theorem at_most_one_notification_per_real_change :
   forall (allowed : mut -> Prop), (forall mu, allowed mu -> forall l, replay_ok l mu) ->
